@@ -327,6 +327,9 @@ def make_flag_evaluator(ctx, f, rd, node):
                 for a, b in ((l, r), (r, l)):
                     if is_len(a, '_skipped_parts') and is_len(b, '_parts'):
                         return ('B', isinstance(op, ast.Eq))
+        # `self.anything_ran()`: some part stored its captured output.  Related to the other atoms by C15.R4 (see the domain below).
+        if isinstance(e, ast.Call) and isinstance(e.func, ast.Attribute) and e.func.attr == 'anything_ran' and is_name(e.func.value, recv) and not e.args:
+            return ('U', True)
         return None
 
     def resolve_name(nm):
@@ -344,26 +347,31 @@ def r6_summary_flags(ctx, rule='C02.R6'):
     f, g, rd, node, exprs = summary_flag_exprs(ctx)
     ev = make_flag_evaluator(ctx, f, rd, node)
     spec = {'failed': lambda A, B: A, 'skipped': lambda A, B: B, 'passed': lambda A, B: (not A) and (not B)}
+    # atoms: A = a failure was recorded, B = every part was skip-recorded, U = some part stored captured output (anything_ran()).
+    # reachable valuations: A and B exclude each other (a skip-recorded part never reaches a fail store: C02.R1/R5); a skip-recorded part stores no
+    # output and an executed one does (C15.R4), so B -> not U and (not A and not B) -> U; after a failure U is free (a compile error, a directive error
+    # or an import error is recorded before any part stored output).
+    domain = [(A, B, U) for A in (False, True) for B in (False, True) for U in (False, True)
+              if not (A and B) and (not B or not U) and (A or B or U)]
     table = {}
     for key in ('passed', 'skipped', 'failed'):
         rows = []
         ok = True
-        for A in (False, True):
-            for B in (False, True):
-                got = ev.eval(exprs[key], {'A': A, 'B': B})
-                rows.append({'failure_recorded': A, 'all_parts_skipped': B, key: got})
-                if got != spec[key](A, B):
-                    ok = False
+        for (A, B, U) in domain:
+            got = ev.eval(exprs[key], {'A': A, 'B': B, 'U': U})
+            rows.append({'failure_recorded': A, 'all_parts_skipped': B, 'anything_ran': U, key: got})
+            if got != spec[key](A, B):
+                ok = False
         table[key] = rows
+        bad = [r for r in rows if r[key] != spec[key](r['failure_recorded'], r['all_parts_skipped'])]
         rep.ob(rule, ctx.loc(f, exprs[key]), "summary['%s'] = %s" % (key, ctx.src(exprs[key])), ok,
-               'truth table over (failure recorded, all parts skipped) equals the specification' if ok else
-               'summary flag %r differs from its specification on some valuation: %s' % (key, rows), anchor=POST)
+               'truth table over the reachable valuations of (failure recorded, all parts skipped, anything ran) equals the specification' if ok else
+               'summary flag %r differs from its specification on %s' % (key, bad), anchor=POST)
     rep.note('summary_flag_truth_tables', table)
-    # exclusivity / exhaustiveness on the reachable valuations (A and B cannot both hold, see R1/R5)
-    for A, B in ((False, False), (False, True), (True, False)):
-        vals = {k: ev.eval(exprs[k], {'A': A, 'B': B}) for k in ('passed', 'skipped', 'failed')}
+    for (A, B, U) in domain:
+        vals = {k: ev.eval(exprs[k], {'A': A, 'B': B, 'U': U}) for k in ('passed', 'skipped', 'failed')}
         ok = sum(1 for v in vals.values() if v) == 1
-        rep.ob(rule, ctx.loc(f, node.ast), 'exactly one flag | failure=%s all_skipped=%s' % (A, B), ok,
+        rep.ob(rule, ctx.loc(f, node.ast), 'exactly one flag | failure=%s all_skipped=%s anything_ran=%s' % (A, B, U), ok,
                'flags %s' % vals, anchor=POST)
 
 
@@ -512,6 +520,7 @@ from ..selftest import fire, silent      # noqa: E402
 DE = 'xdoctest/doctest_example.py'
 CK = 'xdoctest/checker.py'
 VARIANTS = [
+    fire('skipped-flag-from-anything-ran', 'C02.R6', (DE, "        skipped = len(self._skipped_parts) == len(self._parts)\n", "        skipped = not self.anything_ran()\n")),
     fire('M28-continue-after-gotwant', 'C02.R1',
          (DE, "                    self.exc_info = sys.exc_info()\n                    if on_error == 'raise':\n                        raise\n                    break\n                except checker.ExtractGotReprException",
               "                    self.exc_info = sys.exc_info()\n                    if on_error == 'raise':\n                        raise\n                    continue\n                except checker.ExtractGotReprException")),
